@@ -1,5 +1,6 @@
-(* C01 modelrun: replay each case through the extracted trie model (Model.Trie, bit-string
-   instance) and compare every observation token with what the implementation answered.
+(* C01 modelrun: replay each case through the extracted trie model (Model.Trie: bit-string
+   instance; for T=rn cases the raw IPv4 instance of Model.TrieRaw) and compare every
+   observation token with what the implementation answered.
    Token formats: see harness/cmd/c01/main.go. *)
 let bits_of_string (s : string) : bool list =
   if s = "_" then [] else List.init (String.length s) (fun i -> s.[i] = '1')
@@ -11,62 +12,94 @@ let fmt_paths (ps : n list) : string =
   if ps = [] then "e" else
     String.concat "." (List.map string_of_int (List.sort compare (List.map int_of_n ps)))
 
-let index_of (pool : bool list array) (b : bool list) : int =
-  let r = ref (-1) in
-  Array.iteri (fun i p -> if !r < 0 && p = b then r := i) pool; !r
-
-let fmt_set (pool : bool list array) (rs : (bool list * n list) list) : string =
-  if rs = [] then "-" else
-    String.concat ";" (List.sort compare (List.map (fun (b, ps) ->
-      let i = index_of pool b in
-      if i >= 0 then Printf.sprintf "%d:%s" i (fmt_paths ps)
-      else Printf.sprintf "?%s:%s" (string_of_bits b) (fmt_paths ps)) rs))
-
 let path (s : string) : n = n_of_int (int_of_string s)
 
+(* one model instance: 'p prefixes, 't tables *)
+type ('p, 't) inst = {
+  parse : string -> 'p;
+  show : 'p -> string;
+  empty : 't;
+  step : 't -> ('p, n) op -> 't;
+  get : 't -> 'p -> ('p * n list) option;
+  lpm : 't -> 'p -> ('p * n list) list;
+  longer : 't -> 'p -> ('p * n list) list;
+  dump : 't -> ('p * n list) list;
+  count : 't -> z;
+}
+
+let canon : (bool list, n btable) inst = {
+  parse = bits_of_string; show = string_of_bits; empty = x_empty; step = x_step;
+  get = x_get; lpm = x_lpm; longer = x_longer; dump = x_dump; count = x_count }
+
+let raw : (rpfx, n rtable) inst = {
+  parse = (fun s ->
+    match String.split_on_char '/' s with
+    | [a; l] -> { raddr = bits_of_string a; rlen = nat_of_int (int_of_string l) }
+    | _ -> failwith ("bad raw prefix " ^ s));
+  show = (fun p -> string_of_bits p.raddr ^ "/" ^ string_of_int (int_of_nat p.rlen));
+  empty = x_r_empty; step = x_r_step;
+  get = x_r_get; lpm = x_r_lpm; longer = x_r_longer; dump = x_r_dump; count = x_r_count }
+
+let obs_n = ref 0
+
+(* returns Some (token index, token, model, impl) for the first differing observation *)
+let run_case (type p t) (m : (p, t) inst) (inp : string list) (obs : string list) =
+  let pool = ref [||] in
+  let t = ref m.empty in
+  let rest = ref obs in
+  let bad = ref None in
+  let index_of (b : p) : int =
+    let r = ref (-1) in
+    Array.iteri (fun i x -> if !r < 0 && x = b then r := i) !pool; !r in
+  let fmt_set rs =
+    if rs = [] then "-" else
+      String.concat ";" (List.sort compare (List.map (fun (b, ps) ->
+        let i = index_of b in
+        if i >= 0 then Printf.sprintf "%d:%s" i (fmt_paths ps)
+        else Printf.sprintf "?%s:%s" (m.show b) (fmt_paths ps)) rs)) in
+  let observe tokidx tok mo =
+    incr obs_n;
+    match !rest with
+    | [] -> if !bad = None then bad := Some (tokidx, tok, mo, "<missing>")
+    | io :: r -> rest := r; if !bad = None && io <> mo then bad := Some (tokidx, tok, mo, io) in
+  List.iteri (fun i tok ->
+    let body = String.sub tok 1 (String.length tok - 1) in
+    let parts = String.split_on_char ':' body in
+    let pfx () = (!pool).(int_of_string (List.hd parts)) in
+    match tok.[0] with
+    | 'T' | 'W' -> ()
+    | 'P' ->
+      pool := Array.of_list (List.map m.parse
+                (String.split_on_char ',' (String.sub tok 2 (String.length tok - 2))))
+    | 'a' -> t := m.step !t (Add (pfx (), path (List.nth parts 1)))
+    | 'r' -> t := m.step !t (Remove (pfx (), path (List.nth parts 1)))
+    | 'p' -> t := m.step !t (Replace (pfx (), path (List.nth parts 1)))
+    | 'x' -> t := m.step !t (RemovePfx (pfx ()))
+    | 's' -> t := m.step !t (Subst (pfx (), path (List.nth parts 1), path (List.nth parts 2)))
+    | 'q' ->
+      let q = pfx () in
+      let g = match m.get !t q with
+        | None -> "-"
+        | Some (b, ps) -> if b = q then fmt_paths ps else "?" ^ m.show b ^ ":" ^ fmt_paths ps in
+      observe i tok (Printf.sprintf "G%s|L%s|M%s" g (fmt_set (m.lpm !t q)) (fmt_set (m.longer !t q)))
+    | 'd' ->
+      observe i tok (Printf.sprintf "D%s|C%d" (fmt_set (m.dump !t)) (int_of_z (m.count !t)))
+    | _ -> failwith ("bad token " ^ tok)) inp;
+  !bad
+
 let () =
-  let compared = ref 0 and mism = ref 0 and obs_n = ref 0 in
+  let compared = ref 0 and mism = ref 0 and nraw = ref 0 in
   iter_trace Sys.argv.(1) (fun id inp obs ->
     incr compared;
     if obs = ["PANIC"] then
       (incr mism; Printf.printf "CORR-MISMATCH case=%s impl panicked, model does not\n" id)
     else begin
-      let pool = ref [||] in
-      let t = ref x_empty in
-      let rest = ref obs in
-      let bad = ref None in
-      let observe (tokidx : int) (tok : string) (mo : string) =
-        incr obs_n;
-        match !rest with
-        | [] -> if !bad = None then bad := Some (tokidx, tok, mo, "<missing>")
-        | io :: r -> rest := r; if !bad = None && io <> mo then bad := Some (tokidx, tok, mo, io) in
-      List.iteri (fun i tok ->
-        let body = String.sub tok 1 (String.length tok - 1) in
-        let parts = String.split_on_char ':' body in
-        let pfx () = (!pool).(int_of_string (List.hd parts)) in
-        match tok.[0] with
-        | 'T' | 'W' -> ()
-        | 'P' ->
-          pool := Array.of_list (List.map bits_of_string
-                    (String.split_on_char ',' (String.sub tok 2 (String.length tok - 2))))
-        | 'a' -> t := x_step !t (Add (pfx (), path (List.nth parts 1)))
-        | 'r' -> t := x_step !t (Remove (pfx (), path (List.nth parts 1)))
-        | 'p' -> t := x_step !t (Replace (pfx (), path (List.nth parts 1)))
-        | 'x' -> t := x_step !t (RemovePfx (pfx ()))
-        | 's' -> t := x_step !t (Subst (pfx (), path (List.nth parts 1), path (List.nth parts 2)))
-        | 'q' ->
-          let q = pfx () in
-          let g = match x_get !t q with
-            | None -> "-"
-            | Some (b, ps) -> if b = q then fmt_paths ps else "?" ^ string_of_bits b ^ ":" ^ fmt_paths ps in
-          observe i tok (Printf.sprintf "G%s|L%s|M%s" g (fmt_set !pool (x_lpm !t q)) (fmt_set !pool (x_longer !t q)))
-        | 'd' ->
-          observe i tok (Printf.sprintf "D%s|C%d" (fmt_set !pool (x_dump !t)) (int_of_z (x_count !t)))
-        | _ -> failwith ("bad token " ^ tok)) inp;
-      (match !bad with
-       | None -> ()
-       | Some (i, tok, mo, io) ->
-         incr mism;
-         Printf.printf "CORR-MISMATCH case=%s token=%d(%s) model=%s impl=%s\n" id i tok mo io)
+      let bad =
+        if List.mem "T=rn" inp then (incr nraw; run_case raw inp obs) else run_case canon inp obs in
+      match bad with
+      | None -> ()
+      | Some (i, tok, mo, io) ->
+        incr mism;
+        Printf.printf "CORR-MISMATCH case=%s token=%d(%s) model=%s impl=%s\n" id i tok mo io
     end);
-  Printf.printf "STATS compared=%d mismatches=%d observations=%d\n" !compared !mism !obs_n
+  Printf.printf "STATS compared=%d mismatches=%d observations=%d raw_cases=%d\n" !compared !mism !obs_n !nraw
